@@ -1,5 +1,5 @@
 """C05: concurrent activity never surfaces as an error or a panic."""
-from . import common as C, gen as G, scenario as S, trace as T, race as R
+from . import common as C, gen as G, scenario as S, trace as T, race as R, conc as K
 
 PROPS = "theories/Props/C05.v"
 ASSUME = ["no injected I/O faults: the only failures are those another participant's allowed action can cause (a vanished file or directory entry, a name that appeared first)",
@@ -36,14 +36,31 @@ def run(ctx):
             if cls2.startswith("Err") or cls2 == "Panic":
                 violations.append({"what": "the lookup following the raced %s fails: %s" % (desc["op"][0], cls2), "classification": {"kind": "later-error", "op": desc["op"][0], "call": call},
                                    "replay": {"kind": "schedule-equivalent", "scenario": L, "lost_race": {"call_index": k, "call": call, "path": path, "returns": er}}})
+    # real interleavings (gate mode): no operation of any participant may fail in any explored schedule
+    sched_runs = K.explore(ctx, only=lambda f: any(t in f["name"] for t in ("maintenance", "ensure", "promote", "put-vs", "set-vs-set")))
+    sched_agree = 0
+    for fam, kind, plan, cr, diffs, obs, ml in sched_runs:
+        if diffs:
+            ties.append({"what": "model (Conc/Pool.v) and implementation disagree on the same schedule", "case": {"family": fam["name"], "schedule_kind": kind}, "detail": diffs[:3]})
+        else:
+            sched_agree += 1
+        if cr is None:
+            continue
+        for i, r in enumerate(cr.runs):
+            for st, (opk, rest) in r.results.items():
+                cls, d = S.fields(rest)
+                if cls.startswith("Err") or cls == "Panic":
+                    violations.append({"what": "%s of participant %d fails with %s in an interleaving with other participants' ordinary operations" % (opk, i, cls),
+                                       "classification": {"kind": "error-under-interleaving", "op": opk, "family": fam["name"].split(":")[1]},
+                                       "replay": {"kind": "schedule", "family": fam["name"], "setup": fam["setup"], "participants": K.part_lines(fam), "schedule": K.schedule_text(cr), "result": rest}})
     seen, uniq = set(), []
     for v in violations:
         k = tuple(sorted(v["classification"].items()))
         if k not in seen:
             seen.add(k); uniq.append(v)
     cov = {"evaluations": len(res), "distinct_nontrivial": nontriv,
-           "rule": "operation {get, touch, set, put, ensure, get_or_update Replace} x front-end {plain, sharded, stacked over plain+sharded readers} x pre-state {empty, directories missing, key present, over capacity with maintenance firing, secondary hit}: every call on a shared path of the fault-free execution is made to return, one at a time, what a concurrent unlink / publish / mkdir by another participant causes (ENOENT on open/stat/unlink/rename/opendir/create, EEXIST on link/mkdir): the operation must not return an error or panic, the following lookup neither; results, snapshots and traces compared with the model under the same injection. Non-trivial = every case (each is one lost race).",
-           "samples": samples, "traces_validated_against_impl": agree, "fault_free_executions": nb}
+           "rule": "operation {get, touch, set, put, ensure, get_or_update Replace} x front-end {plain, sharded, stacked over plain+sharded readers} x pre-state {empty, directories missing, key present, over capacity with maintenance firing, secondary hit}: every call on a shared path of the fault-free execution is made to return, one at a time, what a concurrent unlink / publish / mkdir by another participant causes (ENOENT on open/stat/unlink/rename/opendir/create, EEXIST on link/mkdir): the operation must not return an error or panic, the following lookup neither; results, snapshots and traces compared with the model under the same injection. Non-trivial = every case (each is one lost race). In addition the real interleavings of the concurrent families (gate mode, every single context-switch point) must end every operation without error.",
+           "samples": samples, "traces_validated_against_impl": agree + sched_agree, "fault_free_executions": nb, "real_schedules_explored": len(sched_runs)}
     if not ctx.quick():
         rc, o = C.coqchk(PROPS)
         cov["coqchk"] = o[-600:]
